@@ -452,23 +452,23 @@ def configs_for(tier: str):
 def run(tier: str, only=None) -> core.Result:
     res = core.Result("C01", "model_checking")
     full, deep, deeper = configs_for(tier)
-    out = explorer.explore(RUN, full)
+    out = explorer.explore(RUN, full, fidelity=True)
     sched.absorb(res, "L1-full-product", RUN, out, full)
-    out = explorer.explore(RUN, deep)
+    out = explorer.explore(RUN, deep, fidelity=True)
     sched.absorb(res, "L2-all-placements", RUN, out, deep)
     bound = 4 if tier == "quick" else 5
-    out = explorer.explore(RUN, deeper, bound=bound)
+    out = explorer.explore(RUN, deeper, bound=bound, fidelity=True)
     sched.absorb(res, f"L{deeper[0]['L']}-deviation-bound-{bound}", RUN, out, deeper)
     hcfgs, hnames, uncallable = helper_configs()
     for u in uncallable:
         res.harness_errors.append(f"[helpers] discovered request helper cannot be driven: {u}")
     if hcfgs:
-        out = explorer.explore(RUN_HELPER, hcfgs)
+        out = explorer.explore(RUN_HELPER, hcfgs, fidelity=True)
         sched.absorb(res, "typed-helpers-x-distractor-prefixes", RUN_HELPER, out, hcfgs, min_outcomes=1)
         res.coverage["helpers_discovered"] = [n.split(":")[-1] for n in hnames]
     if tier == "thorough":
         l3 = [dict(c, L=3, rich=False) for c in deep]
-        out = explorer.explore(RUN, l3)
+        out = explorer.explore(RUN, l3, fidelity=True)
         sched.absorb(res, "L3-all-placements", RUN, out, l3)
     res.coverage["exhaustive"] = True
     res.coverage["rule"] = (
